@@ -54,6 +54,8 @@ type Config struct {
 	Stubs       map[string]bool // extra named stubs enabled
 	Trace       bool
 	Cuts        []CutSpec
+	AssertSolver string // one-shot back end for assertion queries (e.g. cvc5-int for checksum arithmetic)
+	AssertTimeoutMs int
 }
 
 // Stats of one obligation run.
@@ -99,6 +101,8 @@ type X struct {
 	cutSeen   map[string]int
 	Params    map[string]int
 	cutOld    map[string]Value
+	AuxQueries, AuxSat, AuxUnsat, AuxUnk int
+	AuxTime   time.Duration
 }
 
 func (x *X) unsupported(msg string) {
@@ -289,6 +293,38 @@ func (x *X) backtrack() bool {
 		x.trace = x.trace[:len(x.trace)-1]
 	}
 	return false
+}
+
+// checkAssert decides an assertion query, on the one-shot back end if one is configured.
+func (x *X) checkAssert(extra []*T, want []*T) (smt.Result, []uint64) {
+	if x.Cfg.AssertSolver == "" {
+		return x.check(extra, want)
+	}
+	as := append(append([]*T{}, x.pc...), extra...)
+	t0 := time.Now()
+	r, vals, msg := smt.OneShotValues(x.Cfg.AssertSolver, x.B, as, want, x.Cfg.AssertTimeoutMs)
+	x.AuxQueries++
+	x.AuxTime += time.Since(t0)
+	switch r {
+	case smt.Sat:
+		x.AuxSat++
+	case smt.Unsat:
+		x.AuxUnsat++
+	default:
+		x.AuxUnk++
+		x.note("one-shot back end inconclusive: " + firstLine(msg))
+	}
+	return r, vals
+}
+
+func firstLine(s string) string {
+	if i := strings.IndexByte(s, '\n'); i >= 0 {
+		s = s[:i]
+	}
+	if len(s) > 160 {
+		s = s[:160]
+	}
+	return s
 }
 
 // replaying reports whether execution is still inside the decision prefix shared with an
